@@ -28,6 +28,9 @@ XDATA = {
     "B": numpy.array([[2.0, -0.7, 0.3], [-0.7, 0.5, 1.1], [0.3, 1.1, -1.0]]),
     # degenerate spectrum {1,1,4} with non-trivial eigenvectors
     "C": numpy.array([[2.0, 1.0, 1.0], [1.0, 2.0, 1.0], [1.0, 1.0, 2.0]]),
+    # already diagonal but not sorted (uncoupled sites), and diagonal + degenerate + unsorted
+    "D": numpy.diag([1.0, 0.2, 0.6]),
+    "E": numpy.diag([0.7, 0.2, 0.7]),
 }
 
 
@@ -88,6 +91,9 @@ class World:
         for n in cfg["ctx"]:
             o = SelfAdjointOperator(data=XDATA[n].copy())
             self._register("X" + n, "ctx", o, {"_data": XDATA[n].astype(complex)})
+        for k in cfg.get("precreate", []):
+            self.create(k)
+        self.ncreated = 0
 
     # -- helpers -----------------------------------------------------
     def v(self, key, what, det=None):
@@ -167,7 +173,7 @@ class World:
         else:
             raise isolation.HarnessError(kind)
         self.ncreated += 1
-        label = "%s%d" % (kind, self.ncreated)
+        label = "%s%d" % (kind, len(self.order))
         H = {a: self.to_root(kind, x) for a, x in vals.items()}
         self._register(label, kind, o, H)
 
@@ -482,12 +488,31 @@ def sections(tier):
                                        "nexc": 1, "protect": True}, 5))
         secs.append(("mixed", {"ctx": ["A", "C"], "kinds": ["op", "sup", "rho"], "nobj": 2,
                                "nest": 2, "nexc": 1, "protect": False}, 4))
+        secs.append(("apply-sup", {"ctx": ["A", "B"], "kinds": [], "nobj": 0, "nest": 2, "nexc": 1,
+                                   "protect": False, "precreate": ["op", "sup"]}, 5))
+        secs.append(("apply-lindop", {"ctx": ["A", "B"], "kinds": [], "nobj": 0, "nest": 2,
+                                      "nexc": 0, "protect": False,
+                                      "precreate": ["rho", "lindop"]}, 5))
+        secs.append(("diagonal-context-operators", {"ctx": ["D", "E", "A"], "kinds": ["op"],
+                                                    "nobj": 1, "nest": 2, "nexc": 1,
+                                                    "protect": False}, 4))
     else:
         for k in ALL_KINDS:
             secs.append(("kind-" + k, {"ctx": ["A", "B", "C"], "kinds": [k], "nobj": 2,
                                        "nest": 3, "nexc": 2, "protect": True}, 6))
         secs.append(("mixed", {"ctx": ["A", "B", "C"], "kinds": ["op", "ham", "sup", "rho", "dme"],
                                "nobj": 3, "nest": 3, "nexc": 2, "protect": True}, 6))
+        secs.append(("apply-sup", {"ctx": ["A", "B", "C"], "kinds": [], "nobj": 0, "nest": 3,
+                                   "nexc": 2, "protect": True, "precreate": ["op", "sup"]}, 7))
+        secs.append(("apply-lindop", {"ctx": ["A", "B", "C"], "kinds": [], "nobj": 0, "nest": 3,
+                                      "nexc": 1, "protect": True,
+                                      "precreate": ["rho", "lindop"]}, 7))
+        secs.append(("apply-lindten", {"ctx": ["A", "B"], "kinds": [], "nobj": 0, "nest": 3,
+                                       "nexc": 1, "protect": False,
+                                       "precreate": ["op", "lindten"]}, 7))
+        secs.append(("diagonal-context-operators", {"ctx": ["D", "E", "A", "C"], "kinds": ["op", "sup"],
+                                                    "nobj": 2, "nest": 3, "nexc": 1,
+                                                    "protect": True}, 6))
     return secs
 
 
